@@ -54,6 +54,9 @@ class Ctx:
 
     # -- proof obligations ------------------------------------------------------------------------
     def check_proofs(self, extra_files=()):
+        if os.environ.get('VERIF_SKIP_PROOFS'):
+            self.notes.append('proof obligations skipped (development run)')
+            return True
         ok, names, assumptions, logtxt = core.check_property_file(self.pid)
         self.obligations = list(names)
         blocks = core.parse_assumptions(assumptions)
